@@ -393,7 +393,11 @@ func (r *realm) onLeave(sess *wamp.Session, shutdown, killAll bool) {
 // HandleSession starts a session attached to this realm.
 //
 // Routing occurs only between WAMP Sessions that have joined the same Realm.
-func (r *realm) handleSession(sess *wamp.Session) error {
+//
+// The WELCOME message is sent here, after the session has joined the realm and
+// before its message handler is started: once the handler runs, the session
+// may be ended at any moment (killed, realm closed), which closes its peer.
+func (r *realm) handleSession(sess *wamp.Session, welcome *wamp.Welcome) error {
 	// The lock is held in mutual exclusion with the closing of the realm. This
 	// ensures that no new session handler can start once the realm is closing,
 	// during which the realm waits for all existing session handlers to exit.
@@ -410,6 +414,9 @@ func (r *realm) handleSession(sess *wamp.Session) error {
 	// lock.
 	r.onJoin(sess)
 	r.closeLock.Unlock()
+
+	verifGate("attach.beforeWelcome")
+	sess.Send() <- welcome // Blocking OK; this is session goroutine.
 
 	if r.debug {
 		r.log.Println("Handling messages for session", sess)
